@@ -1,0 +1,106 @@
+// Copyright 2025 The Go Authors. All rights reserved.
+// Use of this source code is governed by a BSD-style
+// license that can be found in the LICENSE file.
+
+//go:build verif
+
+package quic
+
+// Contracts for the deductive verifier in /verif (govc): stream resets and final sizes
+// (property C32), and the stream-level call sites of connection flow control (property C20).
+
+// ---------------------------------------------------------------------------
+// Receive side: a STREAM or RESET_STREAM frame is refused exactly when it exceeds the stream
+// window, goes beyond a known final size, changes a known final size, or declares a final size
+// below data already received; a window violation is FLOW_CONTROL_ERROR, every other refusal is
+// FINAL_SIZE_ERROR.
+
+//@ pure
+func boundsBad(end int64, fin bool, inwin, insize, inend int64) bool {
+	return end > inwin || (insize != -1 && end > insize) || (fin && insize != -1 && end != insize) || (fin && end < inend)
+}
+
+//@ func (*Stream).checkStreamBounds(s, end, fin) (err)
+//@   requires s != nil
+//@   ensures  err != nil <==> boundsBad(end, fin, s.inwin, s.insize, s.in.end)
+//@   ensures  err != nil ==> hastype(err, localTransportError)
+//@   ensures  err != nil && end > s.inwin ==> err.(localTransportError).code == errFlowControl
+//@   ensures  err != nil && end <= s.inwin ==> err.(localTransportError).code == errFinalSize
+
+// handleReset: a RESET_STREAM that contradicts what is known is an error and changes nothing of the
+// final-size state; an accepted first reset records the code and the final size; a repeated reset
+// changes nothing.
+//
+//@ func (*Stream).handleReset(s, code, finalSize) (err)
+//@   havoccalls except Stream.inwin, Stream.insize, Stream.inresetcode
+//@   requires s != nil && code <= 1<<62 - 1
+//@   ensures  old(boundsBad(finalSize, true, s.inwin, s.insize, s.in.end)) ==> err != nil && s.insize == old(s.insize) && s.inresetcode == old(s.inresetcode)
+//@   ensures  old(boundsBad(finalSize, true, s.inwin, s.insize, s.in.end)) && finalSize <= old(s.inwin) ==> hastype(err, localTransportError) && err.(localTransportError).code == errFinalSize
+//@   ensures  err == nil && old(s.inresetcode) == -1 ==> s.insize == finalSize && s.inresetcode == int64(code)
+//@   ensures  err == nil && old(s.inresetcode) != -1 ==> s.insize == old(s.insize) && s.inresetcode == old(s.inresetcode)
+//@   ensures  err == nil ==> s.inresetcode != -1
+//@   partial nopanic, pre
+//@   noframe
+
+// handleData: data beyond the window or contradicting the final size is refused without touching
+// the final size; a frame with FIN that is accepted (and not discarded because the stream was
+// read-closed or reset) fixes the final size.
+//
+//@ func (*Stream).handleData(s, off, b, fin) (err)
+//@   havoccalls except Stream.inwin, Stream.insize, Stream.inresetcode
+//@   requires s != nil && 0 <= off && off <= 1<<62
+//@   ensures  old(boundsBad(off + int64(len(b)), fin, s.inwin, s.insize, s.in.end)) ==> err != nil && s.insize == old(s.insize)
+//@   ensures  err == nil && old(s.insize) != -1 ==> s.insize == old(s.insize)
+//@   ensures  err == nil && fin && old(s.insize) == -1 ==> s.insize == off + int64(len(b)) || s.insize == -1
+//@   partial nopanic, pre
+//@   noframe
+
+// ---------------------------------------------------------------------------
+// Send side. appendStreamFrame returns the part of the requested size that fits.
+//
+//@ func (*packetWriter).appendStreamFrame(w, id, off, size, fin) (b, added)
+//@   partial nopanic
+//@   cases off == 0
+//@   cases size < 64 else size < 16384
+//@   allocates
+//@   requires w != nil && w.sent != nil && 0 <= size && size <= 1<<40 && len(w.b) <= w.pktLim && w.pktLim <= 1<<30
+//@   requires !samebase(w.b, w.sent.b)
+//@   requires uint64(id) <= 1<<62 - 1 && 0 <= off && off <= 1<<62 - 1 && w.pktLim <= cap(w.b)
+//@   ensures  0 <= len(b) && len(b) <= size
+//@   ensures  !added ==> len(b) == 0
+//@   modifies *w, *w.sent, elems(w.b), spare(w.b), elems(w.sent.b), spare(w.sent.b)
+
+// appendOutFramesLocked: after a local reset no STREAM frame is offered and the RESET_STREAM frame
+// states the highest offset ever sent (C32); outmaxsent is that offset: it never decreases and
+// covers every range handed to the packet writer; the range offered never reaches beyond
+// outmaxsent plus the connection-level credit, and exactly the newly covered bytes are charged to
+// the connection window, within its credit (C20). The stream invariant "every byte below the first
+// unsent offset has been sent" (first unsent offset <= outmaxsent; when nothing is unsent, what was
+// flushed within the window <= outmaxsent) is a precondition and is assumed again at the loop head:
+// it is re-established by rangeset.sub, whose set semantics are not under contract (C24 proves its
+// representation invariant only).
+//
+//@ func (*Stream).appendOutFramesLocked(s, w, pnum, pto) (r)
+//@   havocs except Stream.id, Conn.side
+//@   havoccalls except Stream.id, Conn.side, Stream.conn, Stream.outreset, Stream.outmaxsent, connOutflow.max, connOutflow.used
+//@   abstractcall sub
+//@   requires s != nil && w != nil && s.conn != nil
+//@   requires 0 <= s.conn.streams.outflow.used && s.conn.streams.outflow.used <= s.conn.streams.outflow.max && s.conn.streams.outflow.max <= 1<<61
+//@   requires 0 <= s.outmaxsent && s.outmaxsent <= 1<<61
+//@   loop 1 assume s.outmaxsent <= 1<<61
+//@   requires len(s.outunsent) > 0 ==> s.outunsent[0].start <= s.outmaxsent
+//@   requires len(s.outunsent) == 0 ==> min(s.outflushed, s.outwin) <= s.outmaxsent
+//@   requires s.out.start <= s.outmaxsent && 0 <= s.out.start
+//@   loop 1 assume len(s.outunsent) > 0 ==> s.outunsent[0].start <= s.outmaxsent
+//@   loop 1 assume len(s.outunsent) == 0 ==> min(s.outflushed, s.outwin) <= s.outmaxsent
+//@   loop 1 assume s.out.start <= s.outmaxsent && 0 <= s.out.start
+//@   assert at call appendStreamFrame: !s.outreset.isSet()
+//@   assert at call appendStreamFrame: $size == 0 || $off + int64($size) <= s.outmaxsent + (s.conn.streams.outflow.max - s.conn.streams.outflow.used) || $off + int64($size) <= s.outmaxsent
+//@   assert at call sub: $end <= s.outmaxsent && s.outmaxsent >= old(s.outmaxsent)
+//@   assert at call appendResetStreamFrame: $finalSize == s.outmaxsent && s.outmaxsent == old(s.outmaxsent)
+//@   ensures  s.outmaxsent >= old(s.outmaxsent)
+//@   loop 1 invariant s != nil && w != nil && s.conn == old(s.conn) && !s.outreset.isSet()
+//@   loop 1 invariant 0 <= s.conn.streams.outflow.used && s.conn.streams.outflow.used <= s.conn.streams.outflow.max && s.conn.streams.outflow.max <= 1<<61
+//@   loop 1 invariant old(s.outmaxsent) <= s.outmaxsent
+//@   partial nopanic, pre
+//@   noframe
